@@ -14,7 +14,8 @@ from vmon import pzoo
 PID = "C17"
 LEVEL = "exploration"
 RULE = ("cases = (classifier, label set: ints / non-contiguous ints / python and numpy strings of mixed case, 2-5 classes, unbalanced, "
-        "labels as ndarray or Series, panel shape, random_state seed) and time-series-forest composition cases (classifier and regressor); "
+        "labels as ndarray or Series, panel shape, random_state seed), time-series-forest composition cases (classifier and regressor) and "
+        "supervised-forest cases on small multi-class panels (trees whose bag missed a class); "
         "non-trivial: >= 2 classes actually predicted or probabilities not all one-hot; distinct = distinct case dict")
 ANCHOR_FILES = ["sktime/classification/base.py", "sktime/classification/interval_based/*.py", "sktime/classification/dictionary_based/*.py",
                 "sktime/classification/compose/_column_ensemble.py", "sktime/series_as_features/base/estimators/interval_based/_tsf.py",
@@ -53,6 +54,10 @@ def cases(tier, seed):
                "n_estimators": 1 if r % 10 in (0, 5) else int(rng.integers(1, 8)),     # the single-tree forest is always in the workload (both kinds)
                "min_interval": int(rng.integers(3, 6)), "classes": int(rng.integers(2, 5)), "n_jobs": [1, 1, 2][r % 3], "dseed": int(rng.integers(0, 2 ** 31)),
                "eseed": int(rng.integers(0, 100)), "values": ["float", "float", "int-nested", "int-array", "int16-array"][int(rng.integers(0, 5))]}
+    # supervised forest on small multi-class panels: class-balanced bags that miss a class are frequent there
+    for r in range(24 if tier == "quick" else 400):
+        yield {"kind": "stsf", "per_class": int(rng.integers(2, 4)), "classes": int(rng.integers(2, 5)), "nt": int(rng.integers(16, 40)), "n_estimators": int(rng.integers(8, 25)),
+               "labels": ["int3", "mixedcase", "noncontig", "int5", "strnum"][int(rng.integers(0, 5))], "dseed": int(rng.integers(0, 2 ** 31)), "eseed": int(rng.integers(0, 100))}
     for r in range(20 if tier == "quick" else 300):
         FORMS = ["list", "int", "name", "names", "slice", "mask", "callable"]
         k = int(rng.integers(1, 4))
@@ -80,7 +85,63 @@ def run_case(case, ctx):
         return _blackbox(case, ctx)
     if case["kind"] == "tsf":
         return _tsf(case, ctx)
+    if case["kind"] == "stsf":
+        return _stsf(case, ctx)
     return _colens(case, ctx)
+
+
+def _stsf(case, ctx):
+    """the supervised forest's probabilities are the average over its trees of each tree's probabilities, every tree's columns placed at the
+    positions of the classes THAT TREE saw (reference: dictionary look-up of the tree's own classes_ in the forest's classes_)"""
+    from scipy import signal
+    from sktime.classification.interval_based import SupervisedTimeSeriesForest
+    rng = np.random.default_rng([case["dseed"], 1723])
+    vals = list(LABELSETS[case["labels"]])
+    k = min(case["classes"], len(vals))
+    ni = k * case["per_class"]
+    X, cidx, _ = pzoo.make_panel(rng, ni, 1, case["nt"], classes=k)
+    cidx = np.arange(ni) % k
+    y = np.array([vals[c] for c in cidx])
+    Xte, _, _ = pzoo.make_panel(rng, 7, 1, case["nt"], classes=k)
+    est = SupervisedTimeSeriesForest(n_estimators=case["n_estimators"], random_state=case["eseed"])
+    ok, _ = ctx.call("stsf:fit-exception", est.fit, X, y)
+    if not ok:
+        return
+    ok, out = ctx.call("stsf:predict_proba-exception", est.predict_proba, Xte)
+    if not ok:
+        return
+    out = np.asarray(out, dtype=float)
+    classes = list(est.classes_)
+    ctx.check("classes_", classes == sorted(set(y.tolist())), "stsf:classes_-not-the-sorted-training-labels", "classes_ differs from the sorted distinct training labels", got=[str(c) for c in classes])
+    A = np.stack([np.asarray(Xte.iloc[i, 0], dtype=float) for i in range(len(Xte))])
+    _, A_p = signal.periodogram(A)
+    A_d = np.diff(A, 1)
+    pos = {c: j for j, c in enumerate(classes)}
+    acc = np.zeros((len(A), len(classes)))
+    deficient, misplaced_possible = 0, 0
+    for tree, ivs in zip(est.estimators_, est.intervals_):
+        feats = np.concatenate([est._transform(A, ivs[0]), est._transform(A_p, ivs[1]), est._transform(A_d, ivs[2])], axis=1)
+        p = tree.predict_proba(feats)
+        tc = list(tree.classes_)
+        if len(tc) < len(classes):
+            deficient += 1
+            misplaced_possible += int(tc != classes[:len(tc)])
+        for j, c in enumerate(tc):
+            acc[:, pos[c]] += p[:, j]
+    exp = acc / len(est.estimators_)
+    ctx.check("proba.shape", out.shape == exp.shape, "stsf:proba-shape", "predict_proba shape is not (instances, classes seen in training)", got=list(out.shape), expected=list(exp.shape))
+    if out.shape == exp.shape:
+        ctx.check("tsf.average-of-trees", np.allclose(out, exp, atol=1e-9), "stsf:proba-not-class-aligned-average-of-trees",
+                  "supervised forest probabilities are not the average of its trees' probabilities with every tree's columns at the positions of the classes it saw",
+                  got=out[0].tolist(), expected=exp[0].tolist(), trees_that_missed_a_class=deficient, classes=[str(c) for c in classes])
+        ctx.check("proba.rowsum", np.allclose(out.sum(axis=1), 1.0, atol=1e-9), "stsf:rows-do-not-sum-to-one", "probability rows do not sum to one", got=out.sum(axis=1)[:3].tolist())
+        pred = est.predict(Xte)
+        ctx.check("predict.argmax", all(exp[i, pos[pred[i]]] >= exp[i].max() - 1e-9 for i in range(len(pred))), "stsf:predict-not-a-maximiser-of-the-tree-average",
+                  "predict does not return a class with maximal (class-aligned) average tree probability")
+    ctx.tag("stsf:trees-that-missed-a-class", deficient)
+    ctx.tag("stsf:trees-whose-classes-are-not-a-leading-prefix", misplaced_possible)
+    ctx.event(kind="stsf", classes=k, per_class=case["per_class"], n_estimators=case["n_estimators"], deficient_trees=deficient, not_prefix=misplaced_possible)
+    ctx.nontrivial = deficient >= 1
 
 
 def _blackbox(case, ctx):
